@@ -30,11 +30,14 @@ PROP = {
             "a fixed environment; values printed on more than 64 KiB; 300 (quick) / 6000 (thorough) random data environments of 1-10 bindings "
             "(nested arrays/maps of depth <=3 with sizes around the thresholds 8 and 4, keys of every type, random byte strings, a quarter with a "
             "random MaxValueLen); 250 / 5000 programs of 3-9 statements from the evaluator grammar (variables, named functions, lambdas, loops) with 3 calls "
-            "of each function on generated arguments. The Lean driver recomputes the saved bytes (with and without limit) and the count from "
+            "of each function on generated arguments; globals holding EXTENSION functions (f=sin, p=image.new, ...: saved by name) alone, next to data globals sorting "
+            "before and after them, under length limits 1-9, re-assigned and deleted, and inside arrays and maps (the recorded finding), 16 fixed + 40 / 600 random environments. "
+            "A function whose printed text parses back to another tree is classified only when the two trees differ by nothing but the association inside chains of ONE of the "
+            "operators + * && || & | ^ (the harness flattens such chains in both dumps, saveload_assoc.go): any other difference has no class. The Lean driver recomputes the saved bytes (with and without limit) and the count from "
             "the typed dump with the model and evaluates the statement on the implementation's observation. non-trivial = every case.",
     "trusted_base": COMMON_TB + [
         "modelled: object/state.go SaveGlobals (key order, isConstantAndExtraIdentifier, named-function lines, MaxValueLen), object.Constant, "
-        "object/object.go Inspect of nil, booleans, integers, floats, strings, arrays, maps, Function.Inspect (from name + cache key)",
+        "object/object.go Inspect of nil, booleans, integers, floats, strings, arrays, maps, Function.Inspect (from name + cache key), an extension-valued global written by name",
         "parameters of the model in the driver: strconv.Quote = the printer model's Quote with the regenerated IsPrint table; the printed text of "
         "each float and each function's cache key (compact printed form, C02's printer model) are taken from the implementation's dump; the "
         "theorems use the byte-level printers quoteAscii / floatBytes / intBytes, which the driver compares with the evaluator model's "
